@@ -7,8 +7,10 @@
 (*  - CRC / checksum protected PDUs: what the detection capability of the code guarantees *)
 (*    (CRC.tla proves it on the polynomials): every single bit error, every burst no      *)
 (*    longer than the check field, and for CRC-CCITT over 96 bits every error of weight   *)
-(*    <= 3 changes the remainder.  Such a corruption must end in "indicator false", a     *)
-(*    decode error, or an object whose fields equal the original.                         *)
+(*    <= 3 changes the remainder.  Such a corruption must end in "indicator false" or a   *)
+(*    decode error: an accepted object with other field values breaks                     *)
+(*    CorruptPduSilentlyAccepted, an accepted object with the original field values       *)
+(*    (the indicator says "intact" about bits that are not) breaks CorruptPduReportedIntact. *)
 EXTENDS BlockCodes
 
 Outcomes == {"indicator_false", "decode_error", "same_fields", "accepted_different"}
@@ -24,5 +26,7 @@ WithinCapability(kind, width, nbits, p) ==
 CorruptionWhy(r) ==
   IF r.outcome \notin Outcomes THEN "UnexpectedOutcome"
   ELSE IF r.outcome = "accepted_different" /\ WithinCapability(r.kind, r.width, r.nbits, r.cwpattern)
-       THEN "CorruptPduSilentlyAccepted" ELSE "ok"
+       THEN "CorruptPduSilentlyAccepted"
+  ELSE IF r.outcome = "same_fields" /\ WithinCapability(r.kind, r.width, r.nbits, r.cwpattern)
+       THEN "CorruptPduReportedIntact" ELSE "ok"
 =============================================================================
